@@ -81,10 +81,10 @@ def build(base):
 
 # ---------------------------------------------------------------------------------------------- mutation operators
 
-BAD_METHODS = [b'get', b'G\x00T', b'', b'GE T', b'A' * 30, b'GET\t', b'@#!', b'\xffGET', b'G\\x45T', b'(GET)', b'GET:']
+BAD_METHODS = [b'get', b'G\x00T', b'', b'GE T', b'A' * 30, b'GET\t', b'@#!', b'\xffGET', b'G\\x45T', b'(GET)', b'GET:', b'G\\ud800T', b'GET\\udfff', b'\\u20acGET']
 BAD_VERSIONS = [b'HTTP/1.x', b'HTTP/2.0', b'HTTP/0.9', b'HTTP/11.1', b'HTTP/1', b'HTTQ/1.1', b'http/1.1', b'', b'HTTP/1.15',
                 b'HTTP/-1.1', b'HTTP/1.1 x', b'HTTP/3.0', b'HTTP/1,1', b'HTTP/1.1\\r\\nX-Inj: y', b'HTTP/\\u0661.1', b'HTTP/1.1\x00',
-                b'HTTP/9.9', b'HTTP/12.34', b'HTTP/0.1111', b'HTTP/0.9', b'HTTP/00.5', b'HTTP/1.000']
+                b'HTTP/9.9', b'HTTP/12.34', b'HTTP/0.1111', b'HTTP/0.9', b'HTTP/00.5', b'HTTP/1.000', b'HTTP/1.\\udc00', b'HTTP/\\ud800.1', b'HTTP/1.1\\udfff']
 BIG = [1000, 8200, 70000]
 BAD_TARGETS = [b'/#frag', b'noslash', b'*', b'/a b', b'http://[::1/', b'/%zz', b'/%', b'/../../etc/passwd', b'//', b'/\\x',
                b'/\\u12', b'/\\N{x}', b'/\\', b'/a\\r\\nb', b'/\\x00', b'http://a:xyz/', b'/\xff\xfe', b'/\xc3\xa9', b'?', b'/?a=b#c',
@@ -92,7 +92,7 @@ BAD_TARGETS = [b'/#frag', b'noslash', b'*', b'/a b', b'http://[::1/', b'/%zz', b
                b'/\\x80', b'/%00', b'/echo?' + b'k=v&' * 40, b'/echo;\\x00p=1', b'/echo;p=\x00', b'/echo;a\\nb']
 ESCAPES = [b'\\x', b'\\u12', b'\\N{x}', b'abc\\', b'\\U00110000', b'\\r\\nInjected: 1', b'\\x00', b'\\ud800', b'\\777', b'\\u20ac',
            b'\\N{BULLET}', b'\\xff', b'\\', b'\\U0001F600', b'\\x0', b'\\u']
-BAD_HNAMES = [b'Bad Name', b'B(d', b'', b'\x01x', b'\xffx', b'X@Y', b'X\x7f', b' Lead', b'X\tY', b'"Q"', b'X\\x41']
+BAD_HNAMES = [b'Bad Name', b'B(d', b'', b'\x01x', b'\xffx', b'X@Y', b'X\x7f', b' Lead', b'X\tY', b'"Q"', b'X\\x41', b'X\\udfffFoo', b'\\ud800', b'X\\u20ac']
 BAD_HOSTS = [b'a:xyz', b'[::1]:80', b':80', b'a:', b'a:-1', b'a:99999999', b'', b'a b', b'\xff', b'a:80:90', b'a/../b', b'a:8\\x30',
              b'a:\\u0663', b'[::1', b'a:+80', b'a: 80', b'a:8_0', b'\\u20ac.org']
 BAD_CL = [b'abc', b'-5', b'+5', b'5, 5', b'1e3', b'99999999999999999999', b'0x10', b'', b' ', b'5 5', b'\\u0663', b'5\\x00', b'05', b'-0',
@@ -943,6 +943,32 @@ def bad_header_line(buf):
         if not _TCHARS.match(name):
             return 'header name %r is not a token' % name[:40]
     return None
+
+
+def answer_due(buf):
+    """Has the server received everything it can ever need to answer the first message in ``buf``?  True when the header
+    block is complete (CRLF CRLF, first line not empty) and nothing in it - read raw and through the backslash escapes
+    the statement's anchors name (unicode_escape) - spells a body framing header (Content-Length / Transfer-Encoding).
+    Such a message has no body, well-formed or not: "waits for more data" is no longer one of the permitted outcomes."""
+    end = buf.find(b'\r\n\r\n')
+    if end < 0 or buf.startswith(b'\r\n'):
+        return False
+    block = buf[:end]
+    texts = [block.decode('latin-1').lower()]
+    if b'\\' in block:
+        try:
+            texts.append(block.decode('unicode_escape').lower())
+        except Exception:
+            pass
+        for ln in block.split(b'\r\n'):
+            try:
+                texts.append(ln.decode('unicode_escape').lower())
+            except Exception:
+                pass
+    for t in texts:
+        if 'content-length' in t or 'transfer-encoding' in t:
+            return False
+    return True
 
 # ---------------------------------------------------------------------------------------------- shape counters (evidence only)
 
